@@ -2,6 +2,7 @@
 mod enc;
 mod handler;
 mod lab;
+mod sched;
 mod sqlrun;
 
 fn main() {
@@ -10,6 +11,7 @@ fn main() {
     match cmd {
         "sql" => sqlrun::main(&args[2..]),
         "lab" => lab::main(&args[2..]),
+        "sched" => sched::main(&args[2..]),
         _ => {
             eprintln!("usage: rlv sql [--mt N]");
             std::process::exit(2);
